@@ -398,3 +398,45 @@ func (r *Reach) CanReach(from, to *ssa.BasicBlock) bool {
 	}
 	return dfs(from)
 }
+
+// EdgeCond returns the condition under which control flows along pred->blk.
+func (r *Reach) EdgeCond(pred, blk *ssa.BasicBlock) DNF {
+	if r.back[[2]int{pred.Index, blk.Index}] {
+		return nil
+	}
+	return r.edge(pred, blk, 0)
+}
+
+// ValueCase is one possible (non-φ) definition of a value with the condition under which it is chosen.
+type ValueCase struct {
+	V    ssa.Value
+	Cond DNF
+}
+
+// Cases flattens φ-nodes: it returns the non-φ values v can take together with the reaching
+// condition of the incoming edge chain (back edges ignored; depth-limited).
+func (r *Reach) Cases(v ssa.Value) []ValueCase {
+	var out []ValueCase
+	var rec func(x ssa.Value, cond DNF, depth int)
+	rec = func(x ssa.Value, cond DNF, depth int) {
+		phi, ok := x.(*ssa.Phi)
+		if !ok || depth > 4 {
+			out = append(out, ValueCase{V: x, Cond: cond})
+			return
+		}
+		b := phi.Block()
+		for i, p := range b.Preds {
+			ec := r.EdgeCond(p, b)
+			if ec == nil {
+				continue
+			}
+			c2 := ec
+			if cond != nil {
+				c2 = And(cond, ec)
+			}
+			rec(phi.Edges[i], c2, depth+1)
+		}
+	}
+	rec(v, nil, 0)
+	return out
+}
